@@ -38,6 +38,18 @@ fn generate(ctx: &Ctx, n: usize, via_file: bool, tag: &str) -> Result<String, St
     res
 }
 
+fn generate_to_dev_stdout(ctx: &Ctx, n: usize) -> Result<String, String> {
+    let args = vec!["-n".to_string(), n.to_string(), "/dev/stdout".to_string()];
+    let out = cli::run(&ctx.bin("n_queens_gen"), &args, None, None, None, Duration::from_secs(120));
+    if out.timed_out {
+        Err("watchdog".to_string())
+    } else if !out.ok() {
+        Err(format!("n_queens_gen -n {} /dev/stdout failed: {} {}", n, out.status_string(), out.stderr_str().lines().take(4).collect::<Vec<_>>().join(" | ")))
+    } else {
+        Ok(out.stdout_str())
+    }
+}
+
 fn var_index(p: &Problem, k: usize) -> Option<usize> {
     p.index.get(&format!("v_{}", k)).copied()
 }
@@ -58,6 +70,14 @@ pub fn check_n(ctx: &Ctx, st: &mut Stats, n: usize, exact: bool, with_rsbdd: boo
         }
     };
     if n <= 64 {
+        // OUTPUT may also name the process's own standard output
+        match generate_to_dev_stdout(ctx, n) {
+            Ok(t3) if t3 == text => st.bump("dev_stdout_output_equals_stdout"),
+            Ok(t3) if matches!((refsyn::parse_text(&t3), refsyn::parse_text(&text)), (Ok(x), Ok(y)) if x == y) => st.bump("dev_stdout_output_is_the_same_formula_as_stdout"),
+            Ok(t3) => st.violate("c15.run", format!("C15:dev-stdout-output-differs:n={}", n), format!("n = {}: `n_queens_gen -n {} /dev/stdout` writes something else than without OUTPUT: {} vs {} bytes; tail: {:?}", n, n, t3.len(), text.len(), t3.chars().rev().take(80).collect::<String>().chars().rev().collect::<String>()), case()),
+            Err(e) if e == "watchdog" => st.bump("watchdog(inconclusive case)"),
+            Err(e) => st.violate("c15.run", format!("C15:generator-failed:n={}", n), e, case()),
+        }
         match generate(ctx, n, true, &format!("{}-b", n)) {
             Ok(t2) if t2 == text => st.bump("file_output_equals_stdout"),
             // (comments may differ — a header may name the output; what counts is the formula)
